@@ -153,13 +153,27 @@ Tabs == [t |-> RowsOf(tt), s |-> RowsOf(ts), u |-> RowsOf(tu)]
 
 (* ---------------- what is printed ---------------- *)
 KFNames == {"in_two_valued", "select_subquery_null", "scalar_first_row", "null_eq_null", "except_all_as_except",
-            "setop_right_assoc", "in_setop_first_branch", "in_derived_all", "extra_conjunct_ignored"}
+            "setop_right_assoc", "in_setop_first_branch", "in_derived_ignored", "extra_conjunct_ignored",
+            "semi_join_residual_dropped", "intersect_all_left_multiplicity", "nested_pred_in_exists_ignored",
+            "agg_over_subquery_pred_null"}
+KFOrder == <<"null_eq_null", "scalar_first_row", "in_two_valued", "select_subquery_null", "except_all_as_except",
+             "intersect_all_left_multiplicity", "setop_right_assoc", "in_setop_first_branch", "in_derived_ignored",
+             "extra_conjunct_ignored", "nested_pred_in_exists_ignored", "agg_over_subquery_pred_null", "semi_join_residual_dropped">>
 Out(q, kf) == LET r == Eval(q, <<>>, Tabs, kf) IN [err |-> r.err, rows |-> r.rows]
 SameOut(a, b) == a.err = b.err /\ BagEq(a.rows, b.rows)
+\* blame: the complete behaviour (all deviations at once) is reduced to a locally minimal deviation set with the
+\* same outcome (deviations are tried for removal in the order KFOrder)
+RECURSIVE Prune(_, _, _, _)
+Prune(q, P, out, i) ==
+    IF i > Len(KFOrder) THEN P
+    ELSE IF KFOrder[i] \in P /\ SameOut(Out(q, P \ {KFOrder[i]}), out) THEN Prune(q, P \ {KFOrder[i]}, out, i + 1)
+    ELSE Prune(q, P, out, i + 1)
 ResOf(q) ==
     LET ref == Out(q, {})
-        devs == {[kf |-> k, out |-> Out(q, k)] : k \in {{n} : n \in KFNames} \cup {KFNames}}
-    IN [exp |-> ref, dev |-> {d \in devs : ~SameOut(d.out, ref)}]
+        all == Out(q, KFNames)
+        singles == {[kf |-> {n}, out |-> Out(q, {n})] : n \in KFNames}
+        pruned == IF SameOut(all, ref) THEN {} ELSE {[kf |-> Prune(q, KFNames, all, 1), out |-> all]}
+    IN [exp |-> ref, dev |-> {d \in singles \cup pruned : ~SameOut(d.out, ref)}]
 Case == [n |-> 3, t |-> Tabs.t, s |-> Tabs.s, u |-> Tabs.u, res |-> [i \in 1..NQ |-> ResOf(Cat[i].q)]]
 Catalogue == [n |-> 0, cat |-> Cat]
 EmitInv == /\ phase = 0 => PrintT(<<"T", ToJson(Catalogue)>>)
